@@ -370,7 +370,13 @@ pub fn decode_dir(data: &[u8]) -> DirCase {
         (0..n)
             .map(|_| {
                 let name = name11(NAME_POOL[d.u8() as usize % NAME_POOL.len()]);
-                match d.u8() % 14 {
+                match d.u8() % 16 {
+                    14 => Item::NamedLabel { name: match d.u8() % 8 { 0 => *b".          ", 1 => *b"..         ", _ => name } },
+                    15 => {
+                        let n = 1 + d.u8() as usize % 5;
+                        let frags = (0..n).map(|_| (d.pick(&[0x41u8, 0x42, 0x43, 0x01, 0x02, 0x03, 0x40, 0xC1, 0x81, 0x61, 0x21, 0x54, 0x55, 0x14]), d.u8() % 5 != 0, d.u8(), d.u16())).collect();
+                        Item::FragSoup { frags, name }
+                    }
                     12 => {
                         if d.u8() % 4 == 0 {
                             Item::End
